@@ -33,11 +33,53 @@ func (e *Enc) freshResults(prefix string, sig *types.Signature, st *State, reach
 }
 
 func (e *Enc) call(fr *Frame, v *ssa.Call, cc *ssa.CallCommon, st *State, reach Term, pos string) {
+	// a pointer to a struct-valued field of a heap object handed to a callee under contract: the callee's contract reads
+	// the pointee through the field heaps of the pointee's type, while this function keeps it by value inside the
+	// enclosing object - copy the current value to the pointee's field heaps first (the two views agree at the call)
+	saved := map[string]Term{}
+	pureCallee := false
+	if callee := cc.StaticCallee(); callee != nil && e.w.CS.Funcs[funcKeyOf(callee)] != nil && e.w.CS.Funcs[funcKeyOf(callee)].Pure {
+		// (only for callees proved pure: the copies are dropped again below; for other callees the field is havocked
+		// after the call as before)
+		pureCallee = true
+		for _, a := range cc.Args {
+			ad, ok := fr.addrs[a]
+			if !ok || ad.kind != AField || ad.typ == nil {
+				continue
+			}
+			if _, isStruct := e.structs[ad.sort]; !isStruct {
+				continue
+			}
+			if _, isS := ad.typ.Underlying().(*types.Struct); !isS || e.isElemPtrType(ad.typ) {
+				continue
+			}
+			if u, ok := ad.typ.Underlying().(*types.Struct); ok {
+				for i := 0; i < u.NumFields(); i++ {
+					key, _, _ := e.fieldKey(ad.typ, i)
+					if _, done := saved[key]; !done {
+						saved[key] = e.heapGet(st, key)
+					}
+				}
+			}
+			e.storeTo(st, &Addr{kind: AStructPtr, ref: e.val(fr, a), typ: ad.typ, sort: ad.sort}, e.load(st, ad))
+		}
+	}
 	e.callInner(fr, v, cc, st, reach, pos)
+	if pureCallee {
+		// nothing was written: drop the copies again so that they do not count as modifications of this function
+		for key, h := range saved {
+			e.heapSet(st, key, h)
+		}
+	}
 	// a pointer to a struct-valued field (or to an element of such a value) handed to the callee: the callee may
 	// write through it, and the model keeps that memory by value in the enclosing object, so it is havocked here
 	if _, isBuiltin := cc.Value.(*ssa.Builtin); isBuiltin {
 		return
+	}
+	if callee := cc.StaticCallee(); callee != nil {
+		if c := e.w.CS.Funcs[funcKeyOf(callee)]; c != nil && c.Pure {
+			return // a callee proved pure writes nothing, also not through an interior pointer
+		}
 	}
 	for _, a := range cc.Args {
 		ad, ok := fr.addrs[a]
@@ -448,7 +490,17 @@ func (e *Enc) applyContract(fr *Frame, c *Contract, key string, args []Term, arg
 	}
 	if pureCond.S != "" {
 		// conditional frame: under pureCond nothing is modified
-		m := e.mergeStates([]Term{pureCond, not(pureCond)}, []*State{pre, st})
+		pureSt := pre
+		if len(c.PureMods) > 0 {
+			// conditional frame with exceptions (pureifmods): under pureCond exactly these targets may change
+			pureSt = pre.clone()
+			for _, m := range c.PureMods {
+				if err := env.havocTarget(m, pre, pureSt); err != nil {
+					e.problem("contract %s pureifmods %s: %v", key, m, err)
+				}
+			}
+		}
+		m := e.mergeStates([]Term{pureCond, not(pureCond)}, []*State{pureSt, st})
 		st.heaps, st.base = m.heaps, m.base
 	}
 	if !c.Pure {
@@ -768,10 +820,15 @@ func (e *Enc) loopHeader(fr *Frame, h *ssa.BasicBlock, li *loopInfo, st *State, 
 	// 3. assume invariants
 	if spec != nil {
 		env := e.loopEnv(fr, h, st, nil)
+		lc.invLine = map[string]int{}
 		for _, inv := range spec.Invs {
 			g, err := env.evalBool(inv.E)
 			if err == nil {
+				n := len(e.lines)
 				e.assume(reach, g)
+				if len(e.lines) == n+1 {
+					lc.invLine[inv.Label] = n
+				}
 			}
 		}
 		if spec.Decreases != nil {
@@ -928,7 +985,25 @@ func (e *Enc) backEdge(fr *Frame, from, h *ssa.BasicBlock, cond Term, st *State)
 			e.problem("%s loop %d invariant %s (back edge): %v", fr.fn.Name(), lc.info.ordinal, inv.Label, err)
 			continue
 		}
-		e.oblige(fmt.Sprintf("%s:loop%d:%s:preserved%s", prefix, lc.info.ordinal, inv.Label, sfx), "invariant", cond, g, e.pos(fr, loopPos(h)))
+		o := e.oblige(fmt.Sprintf("%s:loop%d:%s:preserved%s", prefix, lc.info.ordinal, inv.Label, sfx), "invariant", cond, g, e.pos(fr, loopPos(h)))
+		if lc.spec.Staged {
+			// incremental strengthening: invariant k is inductive relative to invariants 1..k, so the header
+			// assumptions of the later ones are left out of its standalone query (fewer assumptions: sound)
+			later := false
+			for _, other := range lc.spec.Invs {
+				if later {
+					if n, ok := lc.invLine[other.Label]; ok {
+						if o.Skip == nil {
+							o.Skip = map[int]bool{}
+						}
+						o.Skip[n] = true
+					}
+				}
+				if other.Label == inv.Label {
+					later = true
+				}
+			}
+		}
 	}
 	e.stepObligations(fr, h, cond, st, "back"+sfx)
 	if lc.spec.Decreases != nil && lc.variant0.S != "" {
